@@ -95,6 +95,13 @@ def _find(fn, pattern, what, all_=False):
     return hits if all_ else hits[0]
 
 
+def _find_opt(fn, pattern, all_=False):
+    try:
+        return _find(fn, pattern, "", all_)
+    except LookupError:
+        return None
+
+
 def _kinds(tuple_src):
     vals = ast.literal_eval(tuple_src)
     return [str(v) for v in vals]
@@ -114,7 +121,8 @@ def source_rules(repo):
     _find(f, r"new_dtype = np\.dtype\(new_dtypekind \+ str\(dsize\)\)", "in_units: np.dtype(kind + str(dsize))")
     _find(f, r"ret = np\.asarray\(self\.ndview \* conversion_factor, dtype=new_dtype\)", "in_units: float product then cast")
     _find(f, r"large = LARGE_INPUT\.get\(dsize, 0\)", "in_units: LARGE_INPUT lookup")
-    _find(f, r"if large and np\.any\(np\.abs\(self\.d\) > large\):", "in_units: LARGE_INPUT test")
+    _n, m = _find(f, r"if large and np\.any\(np\.abs\(self\.d\) (>=|>) large\):", "in_units: LARGE_INPUT test")
+    R["largeStrictCopy"] = m.group(1) == ">"
 
     f = _func(tree, "unyt_array", "convert_to_units")
     _n, m = _find(f, r"if self\.dtype\.kind in (\([^)]*\)):", "convert_to_units: integer-kind test")
@@ -132,21 +140,52 @@ def source_rules(repo):
     _find(f, r"np\.copyto\(values, float_values\)", "convert_to_units: copyto")
     _find(f, r"values \*= conv_factor", "convert_to_units: values *= conv_factor")
     _find(f, r"large = LARGE_INPUT\.get\(dsize, 0\)", "convert_to_units: LARGE_INPUT lookup")
-    _find(f, r"if large and np\.any\(np\.abs\(values\) > large\):", "convert_to_units: LARGE_INPUT test")
+    _n, m = _find(f, r"if large and np\.any\(np\.abs\(values\) (>=|>) large\):", "convert_to_units: LARGE_INPUT test")
+    R["largeStrictInplace"] = m.group(1) == ">"
+    if R["largeStrictCopy"] != R["largeStrictInplace"]:
+        raise LookupError("in_units and convert_to_units compare with LARGE_INPUT differently (> vs >=): not modelled")
+    R["largeStrict"] = R["largeStrictCopy"]
 
     f = _func(tree, "unyt_array", "__array_ufunc__")
     _n, m = _find(f, r"if out\.dtype\.kind in (\([^)]*\)):", "__array_ufunc__: out integer-kind test")
     R["outIntKinds"] = _kinds(m.group(1))
     _n, m = _find(f, r"new_dtype = '(\w)' \+ str\(out\.dtype\.itemsize\)", "__array_ufunc__: out 'f' + itemsize")
     R["outKind"] = m.group(1)
-    _n, m = _find(f, r"new_dtype = np\.dtype\('(\w)' \+ str\(inp1\.dtype\.itemsize\)\)", "__array_ufunc__: second operand dtype")
-    R["binaryKind"] = m.group(1)
+    hit = _find_opt(f, r"new_dtype = np\.dtype\('(\w)' \+ str\(inp1\.dtype\.itemsize\)\)")
+    if hit is not None:
+        # the kind character is a constant: (then, test, else) with then = else
+        R["binaryThenKind"] = R["binaryElseKind"] = hit[1].group(1)
+        R["binaryTestKind"] = "c"
+    else:
+        _n, m = _find(f, r"new_dtypekind = '(\w)' if inp1\.dtype\.kind == '(\w)' else '(\w)'", "__array_ufunc__: second operand kind")
+        R["binaryThenKind"], R["binaryTestKind"], R["binaryElseKind"] = m.group(1), m.group(2), m.group(3)
+        _find(f, r"new_dtype = np\.dtype\(new_dtypekind \+ str\(inp1\.dtype\.itemsize\)\)", "__array_ufunc__: second operand dtype")
     _find(f, r"inp1 = np\.asarray\(inp1, dtype=new_dtype\) \* conv", "__array_ufunc__: second operand float product")
 
     f = _func(tree, "unyt_array", "in_base")
-    _find(f, r"ret = self\.v \* conv", "in_base: self.v * conv")
+    if _find_opt(f, r"ret = self\.v \* conv") is not None:
+        R["inBaseItemSize"] = False  # plain NumPy promotion, no dtype code, no LARGE_INPUT test
+    else:
+        # the same dtype code as in_units, literally
+        _n, m = _find(f, r"dsize = max\((\d+), self\.dtype\.itemsize\)", "in_base: dsize = max(2, itemsize)")
+        _n, m2 = _find(f, r"if self\.dtype\.kind in (\([^)]*\)):", "in_base: integer-kind test")
+        _n, m3 = _find(f, r"new_dtypekind = '(\w)' if self\.dtype\.kind == '(\w)' else '(\w)'", "in_base: result kind")
+        _n, m4 = _find(f, r"if large and np\.any\(np\.abs\(self\.d\) (>=|>) large\):", "in_base: LARGE_INPUT test")
+        _find(f, r"large = LARGE_INPUT\.get\(dsize, 0\)", "in_base: LARGE_INPUT lookup")
+        _find(f, r"new_dtype = np\.dtype\(new_dtypekind \+ str\(dsize\)\)", "in_base: np.dtype(kind + str(dsize))")
+        _find(f, r"ret = np\.asarray\(self\.v \* conv, dtype=new_dtype\)", "in_base: float product then cast")
+        same = (int(m.group(1)) == R["copyMinSize"] and _kinds(m2.group(1)) == R["copyIntKinds"]
+                and (m3.group(1), m3.group(2), m3.group(3)) == (R["copyThenKind"], R["copyTestKind"], R["copyElseKind"])
+                and (m4.group(1) == ">") == R["largeStrictCopy"])
+        if not same:
+            raise LookupError("in_base has dtype code of its own that differs from in_units: not modelled")
+        R["inBaseItemSize"] = True
     f = _func(tree, "unyt_array", "to_value")
     _find(f, r"return float\(v\)", "to_value: float(v) for quantities")
+    R["toValueComplex"] = False
+    if _find_opt(f, r"return complex\(v\)") is not None:
+        _find(f, r"if v\.dtype\.kind == 'c':", "to_value: complex branch test")
+        R["toValueComplex"] = True
     return R
 
 
@@ -223,6 +262,8 @@ def observe(U):
                 return ["err", exc_class(e)]
         if type(r) is float:
             return ["ok", "f", 8]
+        if type(r) is complex:
+            return ["ok", "c", 16]
         return ["ok"] + key(np.asarray(r).dtype)
 
     def inplace(x, meth, *a, **k):
@@ -298,7 +339,12 @@ def generate(X):
     L.append(f"  inplaceIntKinds := [{', '.join(lkind(k) for k in R['inplaceIntKinds'])}]")
     L.append(f"  inplaceRefuseSize := {R['inplaceRefuseSize']}")
     L.append(f"  inplaceKind := {lkind(R['inplaceKind'])}")
-    L.append(f"  binaryKind := {lkind(R['binaryKind'])}")
+    L.append(f"  binaryTestKind := {lkind(R['binaryTestKind'])}")
+    L.append(f"  binaryThenKind := {lkind(R['binaryThenKind'])}")
+    L.append(f"  binaryElseKind := {lkind(R['binaryElseKind'])}")
+    L.append(f"  largeStrict := {'true' if R['largeStrict'] else 'false'}")
+    L.append(f"  inBaseItemSize := {'true' if R['inBaseItemSize'] else 'false'}")
+    L.append(f"  toValueComplex := {'true' if R['toValueComplex'] else 'false'}")
     L.append(f"  outIntKinds := [{', '.join(lkind(k) for k in R['outIntKinds'])}]")
     L.append(f"  outKind := {lkind(R['outKind'])}")
     L.append(f"  largeInput := [{', '.join(f'({k}, {v})' for k, v in large)}]")
